@@ -1525,6 +1525,11 @@ func exprsToValues(vm *r.VM, exprs []syntax.Expression) ([]r.Element, error) {
 		if err != nil {
 			return nil, err
 		}
+		// an argument is the value its expression has now: a later argument that changes a
+		// number in place (以数（自增：1）) must not reach into this one
+		if num, ok := pval.(*value.Number); ok {
+			pval = value.NewNumber(num.GetValue())
+		}
 		params = append(params, pval)
 	}
 	return params, nil
